@@ -54,6 +54,14 @@ def md_pool(backend: str) -> Dict[str, List[Dict[str, Any]]]:
     p["method_vec"] = [{"metadata_type": "add_method_type_info", "type_string": cls, "method_name": "trkPts", "return_type_element": "float"}]
     p["method_ptr"] = [{"metadata_type": "add_method_type_info", "type_string": cls, "method_name": "other", "return_type": cls + "*", "deref_count": 1}]
     p["method_pt_float"] = [{"metadata_type": "add_method_type_info", "type_string": cls, "method_name": "pt", "return_type": "float"}]
+    # declarations on types for which the backend installs DEFAULT method types at construction / reset
+    p["method_on_default_type"] = [{"metadata_type": "add_method_type_info", "type_string": "xAOD::TruthParticle", "method_name": "pdgId", "return_type": "int"},
+                                   {"metadata_type": "add_method_type_info", "type_string": "reco::Muon", "method_name": "charge2", "return_type": "int"},
+                                   {"metadata_type": "add_method_type_info", "type_string": "pat::Muon", "method_name": "charge2", "return_type": "int"}]
+    p["override_default"] = [{"metadata_type": "add_method_type_info", "type_string": "xAOD::TruthParticle", "method_name": "prodVtx", "return_type": "float"},
+                             {"metadata_type": "add_method_type_info", "type_string": "reco::Muon", "method_name": "isPFMuon", "return_type": "int"},
+                             {"metadata_type": "add_method_type_info", "type_string": "pat::Muon", "method_name": "isPFMuon", "return_type": "int"},
+                             {"metadata_type": "add_method_type_info", "type_string": "reco::Track", "method_name": "hitPattern", "return_type": "int"}]
     p["enum"] = [{"metadata_type": "define_enum", "namespace": "xAOD.Jet", "name": "Color", "values": ["Red", "Blue"]}]
     p["enum2"] = [{"metadata_type": "define_enum", "namespace": "Trig", "name": "Bits", "values": ["A", "B"]}]
     decl = {"atlas": {"metadata_type": "add_atlas_event_collection_info", "name": "MyJets", "include_files": ["xAODJet/JetContainer.h"], "container_type": "xAOD::JetContainer",
@@ -103,6 +111,8 @@ def probes(backend: str) -> List[Tuple[str, str]]:
          ("undeclared_function", f"Select(ds, lambda e: e.{coll}('A').Select(lambda j: MyFunc(j.pt())))"),
          ("plain", f"Select(ds, lambda e: (e.{coll}('A').Count(), e.{coll}('B').Select(lambda j: j.eta())))"),
          ("deref_method", f"Select(ds, lambda e: e.{coll}('A').Select(lambda j: j.other().pt()))"),
+         ("default_typed_method", ("Select(ds, lambda e: e.TruthParticles('TP').Select(lambda p: p.prodVtx().x()))" if backend == "atlas" else f"Select(ds, lambda e: e.{coll}('A').Select(lambda j: j.isPFMuon()))")),
+         ("undeclared_on_default_type", ("Select(ds, lambda e: e.TruthParticles('TP').Select(lambda p: p.pdgId()))" if backend == "atlas" else f"Select(ds, lambda e: e.{coll}('A').Select(lambda j: j.charge2()))")),
          ("docker_md_unknown", f"Select(MetaData(ds, {{'metadata_type': 'docker', 'image': 'x:y'}}), lambda e: e.{coll}('A').Count())"),
          ("job_script_self", "Select(MetaData(ds, {'metadata_type': 'add_job_script', 'name': 'js2', 'script': [\"print('js2')\"], 'depends_on': ['js1']}), lambda e: e.%s('A').Count())" % coll)]
     return P
